@@ -37,6 +37,19 @@
 (* nodes, Show never invents any, and Renderable says which trees are      *)
 (* expression strings whose reading is unambiguous (see there).            *)
 (*                                                                         *)
+(* NUMBERS.  JSON has one number type.  <<"int", n>> is an integer,         *)
+(* <<"dec", m, e>> is the decimal m * 10^e (exact; no binary floating      *)
+(* point in this module).  The evaluator works on CANONICAL numbers only:  *)
+(* a number whose value is an integer is <<"int", n>>, any other number is *)
+(* <<"dec", m, e>> with e < 0 and m not divisible by 10, so that = on      *)
+(* values is numeric equality (1 = 1.0 = 1e0, as the comparator and         *)
+(* contains() definitions require).  Documents and literals may be written *)
+(* with non-canonical numbers (<<"dec", 10, -1>> is the text 1.0,          *)
+(* <<"dec", 1, 2>> the text 1e2, <<"dec", 50, -2>> the text 0.50): that    *)
+(* selects the text / storage handed to the implementation, never the      *)
+(* value; NormV maps them to canonical form (literals are normalised by    *)
+(* Ev, documents by the caller: SearchN / the generator's document table). *)
+(*                                                                         *)
 (* RESULTS:  a JsonValue,  <<"err", class>>  (the specification requires   *)
 (* an error),  or  <<"dc", why>>  (the specification is silent or          *)
 (* ambiguous: declared don't-care, never compared).                        *)
@@ -48,7 +61,7 @@ DC(c) == <<"dc", c>>
 Abn(x) == x[1] = "err" \/ x[1] = "dc"
 TypeErr == Err("invalid-type")
 
-IsNum(x) == x[1] = "int"
+IsNum(x) == x[1] = "int" \/ x[1] = "dec"
 IsStrV(x) == x[1] = "str"
 IsArrV(x) == x[1] = "arr"
 IsObjV(x) == x[1] = "obj"
@@ -75,8 +88,55 @@ SeqLess(a, b) == IF b = <<>> THEN FALSE
                  ELSE IF a[1] # b[1] THEN a[1] < b[1]
                  ELSE SeqLess(Tail(a), Tail(b))
 
-\* sort keys: both "int" or both "str"
-VLess(x, y) == IF x[1] = "int" THEN x[2] < y[2] ELSE SeqLess(x[2], y[2])
+-----------------------------------------------------------------------------
+(* Exact decimal arithmetic on canonical numbers (scaled integers).        *)
+JDec(m, e) == <<"dec", m, e>>
+AbsInt(n) == IF n < 0 THEN 0 - n ELSE n
+RECURSIVE Pow10(_), Pow5(_), MkNum(_, _)
+Pow10(k) == IF k = 0 THEN 1 ELSE 10 * Pow10(k - 1)
+Pow5(k) == IF k = 0 THEN 1 ELSE 5 * Pow5(k - 1)
+\* the canonical number with value m * 10^e
+MkNum(m, e) == IF m = 0 THEN JInt(0)
+               ELSE IF e >= 0 THEN JInt(m * Pow10(e))
+               ELSE IF (AbsInt(m) % 10) = 0 THEN MkNum((IF m < 0 THEN 0 - 1 ELSE 1) * (AbsInt(m) \div 10), e + 1)
+               ELSE JDec(m, e)
+NumEx(x) == IF x[1] = "int" THEN 0 ELSE x[3]
+MinEx(x, y) == IF NumEx(x) < NumEx(y) THEN NumEx(x) ELSE NumEx(y)
+\* mantissa of x at exponent e <= NumEx(x)
+MAt(x, e) == x[2] * Pow10(NumEx(x) - e)
+NumLess(x, y) == LET e == MinEx(x, y) IN MAt(x, e) < MAt(y, e)
+NumAdd(x, y) == LET e == MinEx(x, y) IN MkNum(MAt(x, e) + MAt(y, e), e)
+NumAbs(x) == IF x[1] = "int" THEN JInt(AbsInt(x[2])) ELSE JDec(AbsInt(x[2]), x[3])
+\* largest integer <= x / smallest integer >= x
+NumFloor(x) == IF x[1] = "int" THEN x
+               ELSE LET d == Pow10(0 - x[3]) IN JInt(IF x[2] >= 0 THEN x[2] \div d ELSE 0 - (((0 - x[2]) + d - 1) \div d))
+NumCeil(x) == IF x[1] = "int" THEN x
+              ELSE LET d == Pow10(0 - x[3]) IN JInt(IF x[2] >= 0 THEN (x[2] + d - 1) \div d ELSE 0 - ((0 - x[2]) \div d))
+NumMulNat(x, n) == MkNum(x[2] * n, NumEx(x))
+\* x / n (n > 0) when the quotient is a decimal with at most 4 more fraction digits than x, else <<>>
+RECURSIVE DivSteps(_, _, _)
+DivSteps(am, n, k) == IF (am % n) = 0 THEN <<am \div n, k>> ELSE IF k = 4 THEN <<>> ELSE DivSteps(am * 10, n, k + 1)
+NumDivNat(x, n) == LET q == DivSteps(AbsInt(x[2]), n, 0)
+                   IN IF q = <<>> THEN <<>> ELSE MkNum((IF x[2] < 0 THEN 0 - 1 ELSE 1) * q[1], NumEx(x) - q[2])
+\* the value is a dyadic rational (exactly representable in binary floating point when small): an integer, or
+\* m / 10^k with 5^k | m
+BinExact(x) == x[1] = "int" \/ (AbsInt(x[2]) % Pow5(0 - x[3])) = 0
+
+\* canonical form of a value (see NUMBERS above)
+RECURSIVE HasDec(_), NormAll(_), NormSeq(_, _, _)
+HasDec(v) == CASE v[1] = "dec" -> TRUE
+               [] v[1] = "arr" -> \E i \in 1..Len(v[2]) : HasDec(v[2][i])
+               [] v[1] = "obj" -> \E k \in DOMAIN v[2] : HasDec(v[2][k])
+               [] OTHER -> FALSE
+NormSeq(s, i, acc) == IF i > Len(s) THEN acc ELSE NormSeq(s, i + 1, Append(acc, NormAll(s[i])))
+NormAll(v) == CASE v[1] = "dec" -> MkNum(v[2], v[3])
+                [] v[1] = "arr" -> JArr(NormSeq(v[2], 1, <<>>))
+                [] v[1] = "obj" -> JObj([k \in DOMAIN v[2] |-> NormAll(v[2][k])])
+                [] OTHER -> v
+NormV(v) == IF HasDec(v) THEN NormAll(v) ELSE v
+
+\* sort keys: both numbers or both "str"
+VLess(x, y) == IF IsNum(x) THEN NumLess(x, y) ELSE SeqLess(x[2], y[2])
 
 \* stable insertion sort of <<key, payload>> pairs
 RECURSIVE InsStable(_, _)
@@ -140,7 +200,8 @@ StepZero(sl) == sl[3] # <<>> /\ sl[3][1] = 0
 (* flatten operator: one level; array elements are spliced, others kept    *)
 Flatten1(s) == FlattenSeq([i \in 1..Len(s) |-> IF s[i][1] = "arr" THEN s[i][2] ELSE <<s[i]>>])
 
-(* comparator-expression: == and != on every JSON type (deep equality);    *)
+(* comparator-expression: == and != on every JSON type (deep equality;     *)
+(* numbers by value - canonical form makes that = );                       *)
 (* ordering comparators are only defined on numbers, anything else is      *)
 (* null.  Two strings: later revisions of the specification order them,    *)
 (* the original one yields null -> don't-care.                             *)
@@ -148,8 +209,8 @@ Compare(op, l, r) ==
   CASE op = "eq" -> JBool(l = r)
     [] op = "ne" -> JBool(l # r)
     [] OTHER -> IF IsNum(l) /\ IsNum(r)
-                THEN JBool(CASE op = "lt" -> l[2] < r[2] [] op = "le" -> l[2] <= r[2]
-                             [] op = "gt" -> l[2] > r[2] [] op = "ge" -> l[2] >= r[2])
+                THEN JBool(CASE op = "lt" -> NumLess(l, r) [] op = "le" -> ~NumLess(r, l)
+                             [] op = "gt" -> NumLess(r, l) [] op = "ge" -> ~NumLess(l, r))
                 ELSE IF IsStrV(l) /\ IsStrV(r) THEN DC("string-ordering")
                 ELSE JNull
 
@@ -175,12 +236,12 @@ Arity(n) == CASE n \in {"contains", "ends_with", "join", "map", "max_by", "min_b
               [] OTHER -> 1
 ArityOk(n, k) == IF Arity(n) < 0 THEN TRUE ELSE k = Arity(n)
 
-AllNum(s) == \A i \in 1..Len(s) : s[i][1] = "int"
+AllNum(s) == \A i \in 1..Len(s) : IsNum(s[i])
+AllBinExact(s) == \A i \in 1..Len(s) : BinExact(s[i])
 AllStr(s) == \A i \in 1..Len(s) : s[i][1] = "str"
 AllObj(s) == \A i \in 1..Len(s) : s[i][1] = "obj"
-RECURSIVE SumOf(_, _)
-SumOf(s, n) == IF n = 0 THEN 0 ELSE SumOf(s, n - 1) + s[n][2]
-AbsInt(n) == IF n < 0 THEN 0 - n ELSE n
+RECURSIVE SumNum(_, _)
+SumNum(s, n) == IF n = 0 THEN JInt(0) ELSE NumAdd(SumNum(s, n - 1), s[n])
 
 \* a occurs in s as a contiguous subsequence
 SubseqOf(a, s) == \E i \in 0..(Len(s) - Len(a)) : SubSeq(s, i + 1, i + Len(a)) = a
@@ -189,16 +250,61 @@ RECURSIVE Digits(_)
 Digits(n) == IF n < 10 THEN <<48 + n>> ELSE Digits(n \div 10) \o <<48 + (n % 10)>>
 IntText(n) == IF n < 0 THEN <<45>> \o Digits(0 - n) ELSE Digits(n)
 
-\* to_number on strings: canonical integer literals only; strings without any digit are "not a number"
-\* (null); everything else (fractions, exponents, leading zeros, signs, spaces) is outside this model
+\* Text of a number.  DecText(m, e), e < 0: plain decimal notation with exactly -e fraction digits ("-0.25", "1.0");
+\* e >= 0: mantissa "e" exponent ("1e2").
+RECURSIVE PadDigits(_, _)
+PadDigits(n, w) == IF w = 0 THEN <<>> ELSE PadDigits(n \div 10, w - 1) \o <<48 + (n % 10)>>
+DecText(m, e) == IF e >= 0 THEN IntText(m) \o <<101>> \o Digits(e)
+                 ELSE LET d == Pow10(0 - e)  am == AbsInt(m)
+                      IN (IF m < 0 THEN <<45>> ELSE <<>>) \o Digits(am \div d) \o <<46>> \o PadDigits(am % d, 0 - e)
+NumText(v) == IF v[1] = "int" THEN IntText(v[2]) ELSE DecText(v[2], v[3])
+
+(* to_number on strings: "Returns the parsed number.  Any string that does not conform to the json-number  *)
+(* production is converted to null."                                                                     *)
+(*   json-number = [ "-" ] int [ frac ] [ exp ]      int = "0" / ( digit1-9 *DIGIT )                      *)
+(*   frac = "." 1*DIGIT                              exp = ( "e" / "E" ) [ "-" / "+" ] 1*DIGIT            *)
+(* ParseJsonNumber(t) = <<"no">> (not a json-number), <<"big">> (a json-number outside this model: more     *)
+(* than 7 digits, an exponent beyond +-6, more than 6 fraction digits, or a value beyond 10^9) or        *)
+(* <<"ok", m, e>> (the value m * 10^e).                                                                  *)
 IsDigit(c) == c >= 48 /\ c <= 57
-RECURSIVE DigVal(_, _, _)
+RECURSIVE DigVal(_, _, _), DigitRun(_, _)
 DigVal(t, i, acc) == IF i > Len(t) THEN acc ELSE DigVal(t, i + 1, acc * 10 + (t[i] - 48))
-CanonNat(t) == Len(t) >= 1 /\ Len(t) <= 6 /\ (\A i \in 1..Len(t) : IsDigit(t[i])) /\ (Len(t) = 1 \/ t[1] # 48)
-ToNumberStr(t) == IF CanonNat(t) THEN JInt(DigVal(t, 1, 0))
-                  ELSE IF Len(t) >= 2 /\ t[1] = 45 /\ CanonNat(Tail(t)) /\ Tail(t) # <<48>> THEN JInt(0 - DigVal(Tail(t), 1, 0))
-                  ELSE IF \E i \in 1..Len(t) : IsDigit(t[i]) THEN DC("number-syntax")
-                  ELSE JNull
+DigitRun(t, i) == IF i <= Len(t) /\ IsDigit(t[i]) THEN DigitRun(t, i + 1) ELSE i      \* index after the digits that start at i
+ParseJsonNumber(t) ==
+  LET n == Len(t)
+      neg == n >= 1 /\ t[1] = 45
+      i0 == IF neg THEN 2 ELSE 1
+      i1 == DigitRun(t, i0)                                       \* int = t[i0 .. i1-1]
+      intOk == i1 > i0 /\ (i1 - i0 = 1 \/ t[i0] # 48)
+      hasFrac == i1 <= n /\ t[i1] = 46
+      i2 == IF hasFrac THEN DigitRun(t, i1 + 1) ELSE i1            \* fraction digits = t[i1+1 .. i2-1]
+      fracOk == ~hasFrac \/ i2 > i1 + 1
+      hasExp == i2 <= n /\ (t[i2] = 101 \/ t[i2] = 69)
+      expNeg == hasExp /\ i2 + 1 <= n /\ t[i2 + 1] = 45
+      i3 == IF hasExp /\ i2 + 1 <= n /\ (t[i2 + 1] = 43 \/ t[i2 + 1] = 45) THEN i2 + 2 ELSE i2 + 1
+      i4 == IF hasExp THEN DigitRun(t, i3) ELSE i2                 \* exponent digits = t[i3 .. i4-1]
+      expOk == ~hasExp \/ i4 > i3
+  IN IF ~(intOk /\ fracOk /\ expOk /\ i4 = n + 1) THEN <<"no">>
+     ELSE LET ds == SubSeq(t, i0, i1 - 1) \o (IF hasFrac THEN SubSeq(t, i1 + 1, i2 - 1) ELSE <<>>)
+              nf == IF hasFrac THEN i2 - i1 - 1 ELSE 0
+          IN IF Len(ds) > 7 \/ (hasExp /\ i4 - i3 > 1) THEN <<"big">>
+             ELSE LET x == IF hasExp THEN DigVal(SubSeq(t, i3, i4 - 1), 1, 0) ELSE 0
+                      m == DigVal(ds, 1, 0)
+                      e == (IF expNeg THEN 0 - x ELSE x) - nf
+                  IN IF x > 6 \/ e < 0 - 6 \/ (e > 0 /\ Len(ds) + e > 9) THEN <<"big">>
+                     ELSE <<"ok", IF neg THEN 0 - m ELSE m, e>>
+\* (known deviation "to_number-non-json-number": a string that is not a json-number but begins like a number -
+\* optional "-", then a digit, "." digit, or "inf" / "nan" in any letter case - is converted to a number instead of null)
+LowerCp(c) == IF c >= 65 /\ c <= 90 THEN c + 32 ELSE c
+NumberLikePrefix(t) == LET i0 == IF Len(t) >= 1 /\ t[1] = 45 THEN 2 ELSE 1
+                       IN i0 <= Len(t) /\ \/ IsDigit(t[i0])
+                                          \/ (t[i0] = 46 /\ i0 + 1 <= Len(t) /\ IsDigit(t[i0 + 1]))
+                                          \/ (i0 + 2 <= Len(t) /\ <<LowerCp(t[i0]), LowerCp(t[i0 + 1]), LowerCp(t[i0 + 2])>> \in {<<105, 110, 102>>, <<110, 97, 110>>})
+ToNumberStr(t, xf) == LET p == ParseJsonNumber(t)
+                      IN IF p[1] = "ok" THEN MkNum(p[2], p[3])
+                         ELSE IF p[1] = "big" THEN DC("number-range")
+                         ELSE IF "to_number-non-json-number" \in xf /\ NumberLikePrefix(t) THEN DC("to_number-non-json-number")
+                         ELSE JNull
 
 RECURSIVE JoinStrs(_, _, _)
 JoinStrs(glue, s, i) == IF i > Len(s) THEN <<>>
@@ -221,7 +327,7 @@ MergeNoOverrideDiffers(a, args) ==
         \/ (a[j][2][k][1] = "str" /\ Len(a[j][2][k][2]) >= 4)
         \/ HasHash(args[j])
 
-TypeName(v) == CASE v[1] = "int" -> <<110,117,109,98,101,114>>          \* "number"
+TypeName(v) == CASE IsNum(v) -> <<110,117,109,98,101,114>>              \* "number"
                  [] v[1] = "str" -> <<115,116,114,105,110,103>>          \* "string"
                  [] v[1] = "bool" -> <<98,111,111,108,101,97,110>>       \* "boolean"
                  [] v[1] = "arr" -> <<97,114,114,97,121>>                \* "array"
@@ -306,16 +412,20 @@ Call(name, args, v, o) ==
   ELSE LET ev == EvArgs(args, 1, v, o, <<>>) IN
    IF Abn(ev) THEN ev ELSE
    LET a == ev[2] IN
-   CASE name = "abs" -> IF IsNum(a[1]) THEN JInt(AbsInt(a[1][2])) ELSE TypeErr
-     \* avg: array[number]; empty -> null; only exact integer averages are inside this model
+   CASE name = "abs" -> IF IsNum(a[1]) THEN NumAbs(a[1]) ELSE TypeErr
+     \* avg: array[number]; empty -> null.  Exact: sum / length.  Outside the model (don't-care): a quotient that is not a
+     \* short decimal (1/3), and elements that are not dyadic rationals (0.1): the specification says nothing about
+     \* the rounding of binary floating point
      [] name = "avg" -> IF IsArrV(a[1]) /\ AllNum(a[1][2])
                         THEN LET s == a[1][2] IN
                              IF s = <<>> THEN JNull
-                             ELSE LET t == SumOf(s, Len(s)) IN
-                                  IF (AbsInt(t) % Len(s)) = 0 THEN JInt(IF t < 0 THEN 0 - (AbsInt(t) \div Len(s)) ELSE t \div Len(s))
-                                  ELSE DC("non-integer")
+                             ELSE IF ~AllBinExact(s) THEN DC("binary-floating-point")
+                             ELSE LET q == NumDivNat(SumNum(s, Len(s)), Len(s)) IN
+                                  IF q = <<>> THEN DC("not-a-short-decimal") ELSE q
                         ELSE TypeErr
-     [] name \in {"ceil", "floor"} -> IF IsNum(a[1]) THEN a[1] ELSE TypeErr
+     \* ceil / floor: the smallest integer >= / largest integer <= the argument
+     [] name = "ceil" -> IF IsNum(a[1]) THEN NumCeil(a[1]) ELSE TypeErr
+     [] name = "floor" -> IF IsNum(a[1]) THEN NumFloor(a[1]) ELSE TypeErr
      \* contains(array|string subject, any search)
      [] name = "contains" -> IF IsRef(a[2]) THEN DC("expref-as-any")
                              ELSE IF IsArrV(a[1]) THEN JBool(\E i \in 1..Len(a[1][2]) : a[1][2][i] = a[2])
@@ -374,18 +484,24 @@ Call(name, args, v, o) ==
                ELSE LET s == a[1][2]  ps == [i \in 1..Len(s) |-> <<ks[2][i], s[i]>>] IN JArr(Seconds(SortPairs(ps, Len(ps))))
           ELSE TypeErr
      \* sum(array[number]); empty -> 0
-     [] name = "sum" -> IF IsArrV(a[1]) /\ AllNum(a[1][2]) THEN JInt(SumOf(a[1][2], Len(a[1][2]))) ELSE TypeErr
+     \* (elements that are not dyadic rationals: binary floating point rounding, don't-care as for avg)
+     [] name = "sum" -> IF IsArrV(a[1]) /\ AllNum(a[1][2])
+                        THEN (IF AllBinExact(a[1][2]) THEN SumNum(a[1][2], Len(a[1][2])) ELSE DC("binary-floating-point"))
+                        ELSE TypeErr
      \* to_array: array -> itself; number, string, object, boolean -> [x]; null is not listed
      [] name = "to_array" -> IF IsArrV(a[1]) THEN a[1]
                              ELSE IF IsRef(a[1]) \/ a[1][1] = "null" THEN DC("to_array-unlisted-type") ELSE JArr(<<a[1]>>)
      \* to_number: number -> itself; string -> the number it spells or null; everything else null
      [] name = "to_number" -> IF IsNum(a[1]) THEN a[1]
-                              ELSE IF IsStrV(a[1]) THEN ToNumberStr(a[1][2])
+                              ELSE IF IsStrV(a[1]) THEN ToNumberStr(a[1][2], o.xf)
                               ELSE IF IsRef(a[1]) THEN DC("expref-as-any") ELSE JNull
-     \* to_string: string -> itself; others -> their JSON text.  Only booleans have a unique JSON text
-     \* (white space in containers, 1 vs 1.0 for numbers, and null is not listed)
+     \* to_string: string -> itself; others -> their JSON text.  Only booleans and numbers with a short fraction have
+     \* a JSON text everybody agrees on ("1.5", "-0.25"; compliance: to_string(`1.2`) = "1.2").  Don't-care: white space
+     \* in containers, numbers with an integer value (1 vs 1.0 vs 1e0: the value may be the result of floating point
+     \* arithmetic), more than 3 fraction digits (exponent notation), and null is not listed
      [] name = "to_string" -> IF IsStrV(a[1]) THEN a[1]
                               ELSE IF a[1][1] = "bool" THEN JStr(IF a[1][2] THEN <<116,114,117,101>> ELSE <<102,97,108,115,101>>)
+                              ELSE IF a[1][1] = "dec" /\ a[1][3] >= 0 - 3 /\ AbsInt(a[1][2]) < 10000000 THEN JStr(DecText(a[1][2], a[1][3]))
                               ELSE DC("json-rendering")
      [] name = "type" -> IF IsRef(a[1]) THEN DC("expref-as-any") ELSE JStr(TypeName(a[1]))
 
@@ -393,7 +509,7 @@ Ev(e, v, o) ==
   CASE e[1] = "cur" -> v
     \* identifier: member of an object, null for a missing member or a non-object
     [] e[1] = "fld" -> IF v[1] = "obj" /\ e[2] \in DOMAIN v[2] THEN v[2][e[2]] ELSE JNull
-    [] e[1] = "lit" -> e[2]
+    [] e[1] = "lit" -> NormV(e[2])
     [] e[1] = "raw" -> JStr(e[2])
     [] e[1] = "par" -> Ev(e[2], v, o)
     \* sub-expression and pipe: right side against the result of the left side (no short cut on null)
@@ -470,15 +586,18 @@ MayDeviate(e) == \/ e[1] = "fil"
                  \/ (e[1] = "fn" /\ e[2] \in {"merge", "sort", "sort_by", "max_by", "min_by"})
                  \/ \E i \in 1..Len(Children(e)) : MayDeviate(Children(e)[i])
 ValueDeviationNames == {"filter-on-non-array", "merge-no-override", "projection-skips-null", "sort-singleton",
-                        "null-vs-reference-equality", "by-key-error-ignored"}
+                        "null-vs-reference-equality", "by-key-error-ignored", "to_number-non-json-number"}
 ShapeDeviationNames == {"operator-before-pipe", "pipe-into-literal", "argument-context-leak", "parenthesised-operand",
                         "multiselect-leading-star"}
 
 (* The observable of one search: result under ascending and descending     *)
 (* member enumeration.                                                      *)
 Env(ord, xf) == [ord |-> ord, xf |-> xf]
+\* (d canonical; SearchN / SearchDescN accept any document)
 Search(e, d) == Ev(e, d, Env("asc", {}))
 SearchDesc(e, d) == Ev(e, d, Env("desc", {}))
+SearchN(e, d) == Search(e, NormV(d))
+SearchDescN(e, d) == SearchDesc(e, NormV(d))
 
 -----------------------------------------------------------------------------------------------------------------------------------------------------
 (* KNOWN DEVIATIONS of the implementation under test that are triggered by *)
@@ -570,6 +689,7 @@ JsonTextOf(v) ==
   CASE v[1] = "null" -> <<110,117,108,108>>
     [] v[1] = "bool" -> IF v[2] THEN <<116,114,117,101>> ELSE <<102,97,108,115,101>>
     [] v[1] = "int" -> IntText(v[2])
+    [] v[1] = "dec" -> DecText(v[2], v[3])
     [] v[1] = "str" -> Quoted(v[2])
     [] v[1] = "arr" -> <<91>> \o Commas([i \in 1..Len(v[2]) |-> JsonTextOf(v[2][i])], 1) \o <<93>>
     [] v[1] = "obj" -> LET ks == KeySeqOrd(v[2], "asc") IN
